@@ -1,10 +1,15 @@
-// Shared helpers of the C15 harnesses (c15.cpp, c15b.cpp): op-line parsing, dataset
-// construction with an explicit batch partition, exact output, FE_INEXACT window.
+// Shared helpers of the C15 harnesses (c15.cpp, c15b.cpp, c15c.cpp): op-line parsing, dataset
+// construction with an explicit batch partition, exact output, FE_INEXACT window, and the
+// protocol loop.  A line is one op -- executed on freshly constructed trainer / model
+// objects -- or a HISTORY `op ; op ; ... ; op`: the steps are executed one after the other
+// on the SAME trainer, model and output objects (a `Session`), the observation line is
+// `obs ;; obs ;; ... ;; obs`.  Every step of a history must give what a fresh object gives.
 #ifndef VERIF_HARNESS_C15_COMMON_HPP
 #define VERIF_HARNESS_C15_COMMON_HPP
 #include "common.hpp"
 #include <cfenv>
 #include <cstdlib>
+#include <memory>
 #include <shark/Data/Dataset.h>
 #include <shark/Data/WeightedDataset.h>
 
@@ -27,24 +32,29 @@ inline bool allInt(std::vector<std::string> const& t, std::size_t from, std::vec
 // cursor over the integer arguments of an op line
 struct Args{
 	std::vector<long long> a; std::size_t pos; bool bad;
-	Args(): pos(0), bad(false){}
+	int shift;                 // op name suffix `@s`: every data value v of the table stands for v * 2^-s
+	Args(): pos(0), bad(false), shift(0){}
 	long long next(){ if(pos >= a.size()){ bad = true; return 0; } return a[pos++]; }
 	std::size_t nat(){ long long v = next(); if(v < 0){ bad = true; return 0; } return (std::size_t)v; }
 	bool done() const{ return !bad && pos == a.size(); }
 };
 
-// "n d nb s_1 .. s_nb" + row-major values, `extra` more columns per row (labels / class / weight)
+// "n d nb s_1 .. s_nb" + row-major values, `extra` more columns per row (labels / class / weight).
+// The d input columns (and the extra columns if `scaleExtra`: regression labels) are scaled by 2^-A.shift.
 struct Table{
 	std::size_t n, d, extra; std::vector<std::size_t> sizes;
 	std::vector<std::vector<double> > rows;      // n rows of d+extra values
-	bool read(Args& A, std::size_t extraCols){
+	bool read(Args& A, std::size_t extraCols, bool scaleExtra = false){
 		n = A.nat(); d = A.nat(); extra = extraCols; std::size_t nb = A.nat();
 		if(A.bad || nb > 4096 || n > 100000 || d > 4096) return false;
 		sizes.clear(); std::size_t tot = 0;
 		for(std::size_t i = 0; i < nb; ++i){ sizes.push_back(A.nat()); tot += sizes.back(); if(sizes.back() == 0) return false; }
 		if(A.bad || tot != n || n == 0) return false;
 		rows.assign(n, std::vector<double>(d + extra));
-		for(std::size_t i = 0; i < n; ++i) for(std::size_t j = 0; j < d + extra; ++j) rows[i][j] = (double)A.next();
+		for(std::size_t i = 0; i < n; ++i) for(std::size_t j = 0; j < d + extra; ++j){
+			double v = (double)A.next();
+			rows[i][j] = (j < d || scaleExtra) ? std::ldexp(v, -A.shift) : v;
+		}
 		return !A.bad;
 	}
 	std::vector<RealVector> points() const{
@@ -125,6 +135,49 @@ template<class VA, class VB> bool closeVec(VA const& a, VB const& b, double tol)
 	}
 	for(std::size_t i = 0; i < a.size(); ++i) if(!close(a(i), b(i), tol, 1.0 + scale)) return false;
 	return true;
+}
+
+// bit-for-bit comparison of a result of re-used objects with the result of fresh objects (same
+// input, same code path: any difference is state that leaked from the earlier steps)
+template<class VA, class VB> bool sameVec(VA const& a, VB const& b){
+	if(a.size() != b.size()) return false;
+	for(std::size_t i = 0; i < a.size(); ++i) if(!(a(i) == b(i)) && !(std::isnan(a(i)) && std::isnan(b(i)))) return false;
+	return true;
+}
+template<class MA, class MB> bool sameMat(MA const& a, MB const& b){
+	if(a.size1() != b.size1() || a.size2() != b.size2()) return false;
+	for(std::size_t i = 0; i < a.size1(); ++i) for(std::size_t j = 0; j < a.size2(); ++j)
+		if(!(a(i, j) == b(i, j)) && !(std::isnan(a(i, j)) && std::isnan(b(i, j)))) return false;
+	return true;
+}
+
+// protocol loop; `dispatch(opname, args, session)` with session == 0 for a single op
+template<class Session, class Dispatch>
+int runProtocol(Dispatch dispatch){
+	std::string line;
+	while(std::getline(std::cin, line)){
+		std::vector<std::string> t = vh::tokens(line);
+		if(t.empty()){ std::cout << "@ \n"; continue; }
+		std::vector<std::vector<std::string> > steps(1);
+		for(std::size_t i = 0; i < t.size(); ++i){ if(t[i] == ";") steps.push_back(std::vector<std::string>()); else steps.back().push_back(t[i]); }
+		std::unique_ptr<Session> S; if(steps.size() > 1) S.reset(new Session());
+		std::string res;
+		for(std::size_t k = 0; k < steps.size(); ++k){
+			Args A; std::string r; std::string name = steps[k].empty() ? std::string() : steps[k][0];
+			std::size_t at = name.find('@'); bool good = !name.empty();
+			if(at != std::string::npos){
+				std::vector<std::string> sh(1, name.substr(at + 1)); std::vector<long long> v;
+				if(allInt(sh, 0, v) && v[0] >= -60 && v[0] <= 60) A.shift = (int)v[0]; else good = false;
+				name = name.substr(0, at);
+			}
+			if(!good || !allInt(steps[k], 1, A.a)) r = "bad-op";
+			else r = dispatch(name, A, S.get());
+			if(k) res += " ;; ";
+			res += r;
+		}
+		std::cout << "@ " << res << std::endl;   // "@ " marks protocol lines (BLAS may print warnings to stdout)
+	}
+	return 0;
 }
 }
 #endif
